@@ -64,13 +64,15 @@ pub fn compile_ast(
     let mut module_cache = ModuleCache::new();
     let resolver = PackageResolver::memory(modules.clone());
     let process_types = HashMap::new();
+    // the top-level parameter is nil (as the CLI does since its fix: `types::NIL` is a tuple id)
+    let nil_param = program.register_type(Type::nil());
     let r = Compiler::compile(
         ast,
         &HashMap::new(),
         &mut module_cache,
         &resolver,
         &mut program,
-        quiver_core::types::NIL,
+        nil_param,
         &process_types,
         reg,
         None,
